@@ -1,0 +1,13 @@
+//go:build verif
+
+package schema
+
+// VerifHook, when set, is called at the instrumentation points of the verification build
+// (build tag "verif"). A blocking hook doubles as a scheduler gate.
+var VerifHook func(point string, args ...interface{})
+
+func verifPoint(point string, args ...interface{}) {
+	if h := VerifHook; h != nil {
+		h(point, args...)
+	}
+}
